@@ -173,6 +173,16 @@ class World:
         db.config.fixing_duration = case["fix"]
         db.restart_duration = case["restart"]
         db.password = pw_str(case["srv_pw"])
+        # co-listener (second shift, blind change C17-h): ANOTHER running software of the database host listens on the Postgres port
+        # (the documented common option `listen_on_ports`, set the way PrimaiteGame.from_config sets it), so the node keeps the port
+        # open while the database service is down and frames still reach the service: the SERVICE's own guard has to refuse.
+        # The model is unchanged: it never relied on the node's port demultiplexing.
+        if case.get("colisten"):
+            name = case["colisten"]
+            if name not in srv.software_manager.software:
+                from primaite.simulator.system.services.dns.dns_client import DNSClient
+                srv.software_manager.install({"dns-client": DNSClient}[name])
+            srv.software_manager.software[name].listen_on_ports = {PORT_LOOKUP["POSTGRES_SERVER"]}
         bk.software_manager.install(FTPServer)
         for i, (c, cc) in enumerate(zip(self.clients, case["clients"])):
             c.software_manager.install(DatabaseClient)
@@ -850,6 +860,8 @@ def pw_int(p: Optional[str]) -> Optional[int]:
 def gen_and_run(rng: Rng, max_ops: int = 40):
     """Generate a case op by op against the live implementation. Returns (case, impl answers)."""
     case = gen_setup(rng)
+    if rng.chance(1, 4):
+        case["colisten"] = rng.choice(COLISTENERS)
     profile = rng.choice(PROFILES)
     W = dict(BASE_W)
     W.update(PROFILE_W[profile])
@@ -1198,6 +1210,50 @@ def gen_sqlgrid_and_run(rng: Rng, fhealth: str, health: str, q: str):
         e(["rq", 0, 1, q])      # closed
         e(["rq", 0, None, q])   # no id at all
         e(["hq", 0, "SELECT"])
+    return sc.case, sc.out
+
+
+COLISTENERS = ["ntp-client", "web-browser", "dns-client", "terminal"]
+COLISTEN_HALTS = ["stop", "pause", "restart", "disable"]
+COLISTEN_QUERIES = ["SELECT", "INSERT", "DELETE", "ENCRYPT", "PGSTAT", "OTHER"]
+COLISTEN_ALL = [(l, h, q) for l in COLISTENERS for h in COLISTEN_HALTS for q in COLISTEN_QUERIES]
+
+
+def gen_colisten_and_run(rng: Rng, listener: str, halt: str, q: str):
+    """ENUMERATED (second shift): another running software of the database host listens on port 5432 (4 shipped classes) x the service
+    is stopped / paused / restarting / disabled x the six queries: a connection is opened and KEPT, the service halted, then the query
+    over the kept handle, over the raw kept id, a SELECT, a new connect, a disconnect of the kept id, the ransomware script / native
+    query of the host; then the service is brought back and the kept connection is used again.  96 cells."""
+    def tweak(case):
+        case["colisten"] = listener
+        case["max"] = max(case["max"], 3)
+        case["restart"] = 2
+        case["clients"][0]["pw"] = case["srv_pw"]
+        case["durs"]["sUp"] = case["durs"]["sDown"] = 1
+    sc = _Script(rng, "colisten", tweak)
+    with instrumented(sc.rec):
+        w = World(sc.case, sc.rec)
+        e = lambda op: sc.emit(w, op)   # noqa: E731
+        e(["connect", 0])
+        e(["hq", 0, "SELECT"])
+        e(["connect", 0])
+        e(["svc", halt])
+        e(["hq", 0, q])
+        e(["rq", 0, 0, q])
+        e(["hq", 0, "SELECT"])
+        e(["connect", 0])
+        e(["hd", 1])
+        e(["rq", 0, 7, q])
+        if rng.chance(1, 2):
+            e(["tick"])
+            e(["hq", 0, q])
+        back = {"stop": [["svc", "start"]], "pause": [["svc", "resume"]], "restart": [["tick"], ["tick"], ["tick"]],
+                "disable": [["svc", "enable"], ["svc", "start"]]}[halt]
+        for op in back:
+            e(op)
+        e(["hq", 0, "SELECT"])
+        e(["hq", 0, q])
+        e(["connect", 0])
     return sc.case, sc.out
 
 
